@@ -52,3 +52,5 @@ CFG = dict(
             "and HTTP/1 cases are exact)",
     timeout=900,
 )
+
+CFG["rule"] += " C20L also with a WebSocket client (testpb.ChatRoom's WEBSOCKET /v1/{name=rooms/*} under every mount prefix and its near misses: handshake status and the echoed frame)."
